@@ -19,6 +19,7 @@ type consumptions struct {
 func (m *consumptions) SendToAll(p Pack, keyframe bool) {
 	m.Range(func(key, value interface{}) bool {
 		c := value.(*consumption)
+		simhook.Y("consumptions.sendToAll.each")
 		c.send(p, keyframe)
 		return true
 	})
@@ -27,6 +28,7 @@ func (m *consumptions) SendToAll(p Pack, keyframe bool) {
 func (m *consumptions) RemoveAndCloseAll() {
 	m.Range(func(key, value interface{}) bool {
 		c := value.(*consumption)
+		simhook.Y("consumptions.removeAndCloseAll.each")
 		// 只有真正删除了该项的一方才减少计数（可能与 Remove 并发）
 		if _, ok := m.LoadAndDelete(key); ok {
 			atomic.AddInt32(&m.count, -1)
